@@ -369,8 +369,12 @@ pub fn builtin_avg(arr: Vec<f64>, onEmpty: Option<Thunk<Val>>) -> Result<Val> {
 
 #[builtin]
 pub fn builtin_remove_at(arr: ArrValue, at: i32) -> Result<ArrValue> {
+	// Indexes outside of the array remove nothing (negative indexes do not count from the end)
+	let Some(next) = at.checked_add(1).filter(|_| at >= 0) else {
+		return Ok(arr);
+	};
 	let newArrLeft = arr.clone().slice(None, Some(at), None);
-	let newArrRight = arr.slice(Some(at + 1), None, None);
+	let newArrRight = arr.slice(Some(next), None, None);
 
 	Ok(ArrValue::extended(newArrLeft, newArrRight))
 }
